@@ -100,6 +100,9 @@ const (
 	eOK errno = iota
 	eEOF
 	eTimeout
+	eMfile
+	eNfile
+	eConnAborted
 	eClosed // use of closed network connection
 	eReset
 	ePipe
@@ -420,6 +423,13 @@ type Config struct {
 	// until the next pending event (a loaded machine: the clock moves although
 	// code is ready to run). Scenarios that set it give up their exact-time oracles.
 	StallPct int `json:"stall_pct,omitempty"`
+	// AcceptErrPct > 0: with this probability a call of Accept on a simulated
+	// listener fails with a temporary, non-timeout error (EMFILE, ENFILE or
+	// ECONNABORTED, as accept(2) does when the process is out of descriptors or
+	// the peer went away in the backlog) — at once, or after having been blocked
+	// for a while. At most AcceptErrMax (0 = 1) of them per run.
+	AcceptErrPct int `json:"accept_err_pct,omitempty"`
+	AcceptErrMax int `json:"accept_err_max,omitempty"`
 }
 
 // Kernel owns the whole simulated world of one run.
@@ -453,6 +463,7 @@ type Kernel struct {
 	traceHash  uint64
 	sigHash    uint64
 	nSwitch    int
+	acceptErrs int
 	traceLines []string
 	KeepTrace  bool
 	nondefault int
